@@ -350,7 +350,18 @@ def _daqmx_raw(enc, seg, dataobjs, k, be, seed, si):
     for c in range(k):
         for b, w in enumerate(widths):
             r = _rng(seed, "daqmx", si, c, b)
-            buf = bytes(r.getrandbits(8) for _ in range(rows[b] * w))
+            buf = bytearray(r.getrandbits(8) for _ in range(rows[b] * w))
+            forced = seg.get("daqmx_values") or {}
+            for o in dataobjs:            # optionally place given little-endian element bytes at the scaler positions
+                for s in o["daqmx"]["scalers"]:
+                    vals = (forced.get(o["p"]) or {}).get(s["id"])
+                    if s["buf"] != b or vals is None:
+                        continue
+                    sz = TYPES[s["ty"]][1]
+                    for rr in range(o["n"]):
+                        le = vals[c * o["n"] + rr]
+                        buf[rr * w + s["off"]: rr * w + s["off"] + sz] = le[::-1] if be else le
+            buf = bytes(buf)
             raw += buf
             for o in dataobjs:
                 for s in o["daqmx"]["scalers"]:
